@@ -80,6 +80,13 @@ def build(rng, casedir, index, nrec=None, untagged=True, force_all_known=False, 
     if w.huge:
         for r in recs:
             r.line += "\tzl:Z:" + "x" * rng.randint(300_000, 600_000)
+    w.resorted = rng.random() < 0.1
+    if w.resorted:
+        # the input is (partly) the output of an earlier sort: its records already end in bo/sn/iv fields,
+        # which are ordinary optional fields of the input records now
+        for r in recs:
+            if rng.random() < 0.7:
+                r.line += "\tbo:i:%d\tsn:Z:%s\tiv:i:%d" % (rng.randint(-1, 60), rng.choice(["chr1", "unknown", "chrX"]), rng.randint(0, 1))
     w.lines, w.text_kind = ggaf.text_variant([r.line for r in recs], rng, p=0.15 if text_variants else 0.0)
     w.mode = mode or rng.choice(["plain", "plain", "bgzf", "pysam"])
     w.layout = layout or rng.choice(["standard", "tiny", "line_start"])
